@@ -312,7 +312,12 @@ static void op_mesh(char** tok, int n) {
   g->contype = 0; g->conaffinity = 0;
   g->density = density;
   mjModel* m = mj_compile(sp, NULL);
-  if (!m) printf("error %s\n", mjs_getError(sp)); else { print_body(m); mj_deleteModel(m); }
+  if (!m) {
+    // one output line per op: compiler messages may span several lines
+    printf("error ");
+    for (const char* e = mjs_getError(sp); e && *e; e++) putchar(*e == '\n' || *e == '\r' ? ' ' : *e);
+    printf("\n");
+  } else { print_body(m); mj_deleteModel(m); }
   mj_deleteSpec(sp);
 }
 
